@@ -308,6 +308,10 @@ def verify_entry_compatibility(e1, e2):
         if t1 not in COMPATIBLE_TAGS or t2 not in COMPATIBLE_TAGS:
             return (False, [('__type__', t1, t2)])
 
+    # IGNORE entries carry neither size nor checksums
+    if t1 == 'IGNORE':
+        return (True, [])
+
     # 2. compare sizes
     if e1.size != e2.size:
         return (False, [('__size__', e1.size, e2.size)])
